@@ -2463,9 +2463,12 @@ package sdf
 //@   invariant 0 0 <= j && j <= s.num.X
 //@   invariant 0 exists wj int, wk int :: (j == 0 && d == math.MaxFloat64) || (0 <= wj && wj < j && 0 <= wk && wk < s.num.Y && d == s.sdf.Evaluate(p.Sub(v2.Vec{real(wj)*s.step.X, real(wk)*s.step.Y})))
 //@   witnesses 1 j, k - 1
+//@   invariant 0 forall a int, b int :: 0 <= a && a < j && 0 <= b && b < s.num.Y ==> d <= s.sdf.Evaluate(p.Sub(v2.Vec{real(a)*s.step.X, real(b)*s.step.Y}))
 //@   invariant 1 0 <= k && k <= s.num.Y && 0 <= j && j < s.num.X
+//@   invariant 1 forall a int, b int :: 0 <= a && 0 <= b && b < s.num.Y && (a < j || (a == j && b < k)) ==> d <= s.sdf.Evaluate(p.Sub(v2.Vec{real(a)*s.step.X, real(b)*s.step.Y}))
 //@   invariant 1 exists wj int, wk int :: (j == 0 && k == 0 && d == math.MaxFloat64) || (0 <= wj && wj <= j && 0 <= wk && wk < s.num.Y && (wj < j || wk < k) && d == s.sdf.Evaluate(p.Sub(v2.Vec{real(wj)*s.step.X, real(wk)*s.step.Y})))
 //@   ensures [the-result-is-the-operand-evaluated-at-the-point-moved-back-by-one-grid-offset] exists wj int, wk int :: 0 <= wj && wj < s.num.X && 0 <= wk && wk < s.num.Y && r == s.sdf.Evaluate(p.Sub(v2.Vec{real(wj)*s.step.X, real(wk)*s.step.Y}))
+//@   ensures [and-no-copy-is-nearer] forall a int, b int :: 0 <= a && a < s.num.X && 0 <= b && b < s.num.Y ==> r <= s.sdf.Evaluate(p.Sub(v2.Vec{real(a)*s.step.X, real(b)*s.step.Y}))
 //@ end
 
 //@ func Array2D
@@ -2696,3 +2699,4 @@ package sdf
 //@   let dq = r.Evaluate(q)
 //@   ensures [one-lipschitz-whatever-the-number-of-operands] !isnil(r) ==> sq(dp - dq) <= p.Sub(q).Length2()
 //@ end
+
